@@ -586,6 +586,11 @@ func suiteSearch(h *H) {
 		seed := int32(h.rng.Uint32())
 		bl := h.pick(700, 704, 1000, 4096, 16384, 131072)
 		size := h.pick(256*1024-1, 256*1024, 256*1024+1, 512*1024+3, 700*1024, 1<<20+17)
+		if i%6 == 5 || (i == 1 && !h.thorough()) {
+			// block lengths beyond chunkSize (legal up to 2^29: huge files, or a peer that asks for them)
+			bl = h.pick(300000, 262145, 524288)
+			size = h.pick(6*bl+17, 4*bl, 9*bl-1)
+		}
 		basis := h.bytes(size)
 		sh, sums := refSums(seed, basis, bl, h.pick(16, 16, 2))
 		target := editBytes(h, basis)
@@ -896,6 +901,60 @@ func suiteRecvData(h *H) {
 		os.RemoveAll(filepath.Join(env.dir, sub))
 		h.emit(fmt.Sprintf("!recvdata-large seed=%d case=%d bl=%d size=%d refs=%v", h.seed, i, bl, size, idxs), outcome, v, true)
 		h.stat("recvdata.large")
+	}
+	// the list announced a length, the data that arrives is shorter or longer (the source changed between
+	// the building of the list and its transfer; the trailer matches what was actually sent): what is
+	// committed must be exactly the bytes the stream denotes, whatever the announced length — also for
+	// large files (where a receiver might reserve space ahead)
+	for i := 0; i < h.n(4, 24); i++ {
+		seed := int32(h.rng.Uint32())
+		announced := int64(h.pick(1<<20, 3<<20, 5<<20, 100))
+		actual := h.pick(0, 1, 1000, 1<<20-1, 2<<20+7, int(announced)+5000)
+		data := h.bytes(actual)
+		var toks []tok
+		for off := 0; off < len(data); off += 200000 {
+			e := off + 200000
+			if e > len(data) {
+				e = len(data)
+			}
+			toks = append(toks, tok{lit: data[off:e]})
+		}
+		stream := append(append(encHead(sumHead{0, 0, 0, 0}), encTokens(toks)...), refFileSum(seed, data)...)
+		env.n++
+		sub := fmt.Sprintf("shr%d", env.n)
+		os.Mkdir(filepath.Join(env.dir, sub), 0o755)
+		name := sub + "/file"
+		opts := receiver.TransferOpts{}
+		opts.InfoGTE, opts.DebugGTE = falseInfo, falseDebug
+		opts.Server = true
+		rt := &receiver.Transfer{Logger: log.New(io.Discard), Opts: &opts, Dest: env.dir, DestRoot: env.root,
+			Env: &rsyncos.Env{Stdout: io.Discard, Stderr: io.Discard}, Progress: progress.NewPrinter(io.Discard, time.Now),
+			Conn: &rsyncwire.Conn{Reader: bytes.NewReader(stream), Writer: io.Discard}, Seed: seed}
+		f := &receiver.File{Name: name, Mode: 0o100644, ModTime: time.Unix(1600000000, 0), Length: announced}
+		outcome := "ok"
+		func() {
+			defer func() {
+				if r := recover(); r != nil {
+					outcome = fmt.Sprintf("panic:%v", r)
+				}
+			}()
+			if err := receiver.VerifRecvFile1(rt, f); err != nil {
+				outcome = "err:" + err.Error()
+			}
+		}()
+		got, rerr := os.ReadFile(filepath.Join(env.dir, name))
+		v := ""
+		switch {
+		case strings.HasPrefix(outcome, "panic"):
+			v = "FAIL[C08] receiver panicked: " + outcome
+		case outcome == "ok" && (rerr != nil || !bytes.Equal(got, data)):
+			v = fmt.Sprintf("FAIL[C03] the list announced %d bytes, the stream carried %d with a matching checksum; success was reported and the destination holds %d bytes that are not what was sent", announced, len(data), len(got))
+		case outcome != "ok" && rerr == nil:
+			v = "FAIL[C03] the transfer failed (" + outcome + ") but a destination file was created"
+		}
+		os.RemoveAll(filepath.Join(env.dir, sub))
+		h.emit(fmt.Sprintf("!recvdata-shrunk seed=%d case=%d announced=%d actual=%d", h.seed, i, announced, len(data)), strings.SplitN(outcome, ":", 2)[0], v, true)
+		h.stat("recvdata.shrunk")
 	}
 	n := h.n(120, 2500)
 	for i := 0; i < n; i++ {
